@@ -262,13 +262,20 @@ func c29BehavesLikeBadModulus(w *pidwindow, ref, alt *c29Model) bool {
 		return false // the two moduli do not differ here
 	}
 	for _, f := range [2]int32{alt.next, ref.next} {
+		// a batch size that cannot be mistaken for a retried duplicate
+		n := int32(1)
+		for i := 0; i < ref.cnt; i++ {
+			if ref.win[i].first == f && ref.win[i].n == n {
+				n, i = n+1, -1
+			}
+		}
 		wc := *w
-		ok, dup, off := wc.pushAndValidate(ref.epoch, f, 1, 0)
+		ok, dup, off := wc.pushAndValidate(ref.epoch, f, n, 0)
 		got := c29Res{Ok: ok, Dup: dup}
 		if dup {
 			got.Off = off
 		}
-		a := alt.eval(ref.epoch, f, 1)
+		a := alt.eval(ref.epoch, f, n)
 		if a.Ok && !a.Dup {
 			a.Off = 0
 		}
